@@ -77,7 +77,9 @@ class C17(Check):
             "empty containers (exact text and json.loads(text) == document); strings with quotes, backslashes and newlines raw at top "
             "level; shared sub-structures without a cycle (same container twice, diamonds, sibling and descendant) printed in full; "
             "cycles of length 1-4 through arrays (element stores), objects and mixtures, entered at every node and through slots: marker "
-            "exactly at the recurrence, run terminates. non-trivial = container depth >= 2 or a number with >= 16 significant digits")
+            "exactly at the recurrence, run terminates; print statements whose first / middle / last argument fails (nothing of the statement "
+            "is written) or whose arguments write themselves through printing functions (their output precedes the line), in BEGIN and per "
+            "record. non-trivial = container depth >= 2 or a number with >= 16 significant digits")
 
     # ------------------------------------------------------------ numbers
     def gen_num(self, rng, n, cases):
@@ -370,6 +372,96 @@ class C17(Check):
                 "chain": nn, "back": back}
         cases.append(Case(cid, simple_run(cid, prog), meta, True, ["cycle", "deep"]))
 
+    # ------------------------------------------------------------ arguments that fail or write while the statement is evaluated
+    def gen_effects(self, rng, n, cases):
+        """a print statement is ONE line: every argument is evaluated before anything of it is written, so (a) a statement whose first,
+        middle or last argument fails writes nothing at all (the lines of the statements before it stay), (b) whatever the evaluation
+        of an argument writes itself (a called function that prints / printfs) comes, in evaluation order, before the line"""
+        FAULTS = ["1 / 0", "7 % 0", "nofn(1)", "[1] < 2", "$nope", "\"a\" ~ \"(\"", "num(1, 2)", "zero / zero", "[1, 1 / 0]", "{k: 7 % 0}",
+                  "idf(1 / 0)", "(1 + nofn(2))", "-(1 / 0)", "\"s\".split()", "arr[1 / 0]", "printf(\"%d\", 1)", "obj.k.floor(1 / 0)"]
+        FUNS = ("function idf(v) { return v }\n"
+                "function say(v) { print \"in say\", v; return v }\n"
+                "function emit(v) { printf(\"<%f>\", v); return v }\n"
+                "function two(v) { print \"one\"; print \"two\", v, v; return [v] }\n")
+
+        def scalar_arg():
+            v = V.scalar(rng, False)
+            return pyref.literal(v), pyref.pretty(v), ""
+
+        def num_arg():
+            x = float(rng.choice([0, 1, 2, 7, 10, 2.5, 1000000, 0.125]))
+            return pyref.literal(x), x
+
+        def arg(d=1):
+            """(source text, rendering as a print argument, what its evaluation writes)"""
+            r = rng.random()
+            if r < 0.45:
+                if rng.random() < 0.25:
+                    v = V.value(rng, 2, False, 0.6)
+                    return pyref.literal(v), pyref.pretty(v), ""
+                return scalar_arg()
+            if r < 0.65:
+                src, ren, eff = arg(d - 1) if d > 0 else scalar_arg()
+                if src.startswith(("[", "{")):
+                    src, ren, eff = scalar_arg()
+                return "say(%s)" % src, ren, eff + "in say " + ren + "\n"
+            if r < 0.8:
+                lit, x = num_arg()
+                return "emit(%s)" % lit, pyref.pretty(x), "<%s>" % pyref.fmt_f(x)
+            if r < 0.9:
+                lit, x = num_arg()
+                return "two(%s)" % lit, pyref.pretty([x]), "one\ntwo %s %s\n" % (pyref.pretty(x), pyref.pretty(x))
+            lit, x = num_arg()
+            return "say(emit(%s))" % lit, pyref.pretty(x), "<%s>in say %s\n" % (pyref.fmt_f(x), pyref.pretty(x))
+
+        for k in range(n):
+            cid = "fx%d" % k
+            nargs = rng.randint(2, 5) if k % 8 else 1
+            args = [arg() for _ in range(nargs)]
+            head = [scalar_arg() for _ in range(rng.randint(1, 3))]
+            want = " ".join(a[1] for a in head) + "\n"
+            mode = k % 3
+            if mode == 0:
+                # every argument is fine: the writes of the evaluations, then the one line
+                want += "".join(a[2] for a in args) + " ".join(a[1] for a in args) + "\nafter\n"
+                outcome, srcs = "ok", [a[0] for a in args]
+            else:
+                # argument j fails: the evaluations in front of it have happened (and written), nothing of the statement itself is written
+                j = rng.randrange(1, nargs) if (nargs > 1 and k % 5) else rng.randrange(nargs)
+                srcs = [a[0] for a in args]
+                srcs[j] = rng.choice(FAULTS)
+                want += "".join(a[2] for a in args[:j])
+                outcome = "runtime"
+            stmt = "print %s" % ", ".join(srcs)
+            if k % 4 == 3:
+                # the statement runs once per record; the faulting argument only fails on the last record
+                nrec = rng.randint(1, 3)
+                if outcome == "ok":
+                    docs = [{"n": "r%d" % i, "d": float(rng.choice([1, 2, 4, 5]))} for i in range(nrec)]
+                else:
+                    docs = [{"n": "r%d" % i, "d": float(rng.choice([1, 2, 4, 5]))} for i in range(nrec - 1)] + [{"n": "last", "d": 0.0}]
+                pre = [a for a in args[:rng.randint(0, 2)]]
+                w = ""
+                for i, d in enumerate(docs):
+                    w += "".join(a[2] for a in pre)
+                    if d["d"] != 0:
+                        w += " ".join([a[1] for a in pre] + [d["n"], pyref.pretty(10.0 / d["d"])]) + "\n"
+                prog = FUNS + "{ print %s }" % ", ".join([a[0] for a in pre] + ["$.n", "10 / $.d"])
+                meta = {"fam": "effects", "prog": prog, "doc": V.to_json(docs), "want": w, "want_outcome": outcome}
+                cases.append(Case(cid, simple_run(cid, prog, [V.to_json(docs)]), meta, True, ["effects"]))
+                continue
+            prog = FUNS + "BEGIN { zero = 0; arr = [1, 2]; obj = {k: 2.5}\n print %s\n %s\n print \"after\" }" % (", ".join(a[0] for a in head), stmt)
+            meta = {"fam": "effects", "prog": prog, "doc": "", "want": want, "want_outcome": outcome}
+            cases.append(Case(cid, simple_run(cid, prog), meta, True, ["effects"]))
+        # arguments that change what other arguments of the same statement denote: the model is the reference
+        for k, body in enumerate(["n = 1; print n, n = 5", "n = 1; print n = 5, n", "n = 1; print n++, n, ++n", "n = 1; print n, n += 2, n, n -= 1",
+                                  "o = {k: 1}; print o, o.k = 2, o", "o = {k: 1}; print o.k, o.k = 2", "s = \"a\"; print s, s = s + \"b\", s",
+                                  "n = 1; print n, bump(), n", "o = {k: [1]}; print o.k, o.k[0] = 9, o", "n = 2; print n * 2, n = 3, n * 2",
+                                  "print u, u = 1, u", "n = 1; print [n], n = 2, [n]", "$ = 1; print $, $ = 2, $", "n = 1; print n, n = \"s\", n = [n]"]):
+            cid = "fm%d" % k
+            prog = "function bump() { n = n + 10; return n }\nBEGIN { %s }" % body
+            cases.append(Case(cid, simple_run(cid, prog), {"prog": prog, "doc": "", "what": "arguments with side effects on each other (model agreement)"}, False, ["effects"]))
+
     def generate(self, rng, tier):
         q = tier == "quick"
         cases = []
@@ -381,6 +473,7 @@ class C17(Check):
         self.gen_strings(rng, 60 if q else 1000, cases)
         self.gen_shared(rng, 150 if q else 4000, cases)
         self.gen_cycle(rng, 250 if q else 8000, cases)
+        self.gen_effects(rng, 240 if q else 4000, cases)
         return cases
 
     # ------------------------------------------------------------ oracle
@@ -391,6 +484,13 @@ class C17(Check):
             return None
         if impl.outcome == "timeout":
             return "print did not terminate within the harness time limit"
+        if fam == "effects":
+            out = impl.stdout.decode("utf-8", "replace")
+            if impl.outcome != m["want_outcome"]:
+                return "run ended in %r, documented %r" % (impl.outcome, m["want_outcome"])
+            if out != m["want"]:
+                return "a print statement is one line written after all its arguments are evaluated: documented output %r, implementation %r" % (m["want"], out)
+            return None
         if impl.outcome != "ok":
             return "run ended in %r instead of printing" % impl.outcome
         out = impl.stdout.decode("utf-8", "replace")
